@@ -32,7 +32,7 @@ def strip_mod(text: str) -> str:
 
 # ------------------------------------------------------------------ template side
 
-def spec_sig(repo, mod, node) -> Tuple[str, List[str]]:
+def spec_sig(repo, mod, node, _depth=0) -> Tuple[str, List[str]]:
     """(signature, adapter names) of a spec expression in templates.py."""
     text = strip_mod(src(node))
     if isinstance(node, ast.Attribute) or isinstance(node, ast.Name):
@@ -44,6 +44,14 @@ def spec_sig(repo, mod, node) -> Tuple[str, List[str]]:
         m = re.fullmatch(r"Vector([234])", name)
         if m:
             return f"{m.group(1)}f", [name]
+        # a module-level alias of a primitive / adapter expression (COMPRESSED_FLAGS_SPEC = se.IntFlag(...)) is
+        # looked through; shared sub-templates stay symbolic (both decoders name the same object)
+        if isinstance(node, ast.Name) and _depth < 4:
+            target = repo.module_assign(mod, node.id)
+            if target is not None:
+                s2, ad2 = spec_sig(repo, mod, target, _depth + 1)
+                if not s2.startswith("ref("):
+                    return s2, ad2
         return f"ref({name})", []
     if isinstance(node, ast.Call):
         fname = strip_mod(ap(node.func) or src(node.func))
@@ -163,6 +171,7 @@ class FastInterp:
         self.decodes: List[ast.Call] = []
         self.endians = set()
         self.cond_adapters = []
+        self.closures: Dict[str, Any] = {}
 
     def cls_attr(self, name):
         v = self.repo.class_attr(self.ci, name)
@@ -293,6 +302,17 @@ class FastInterp:
 
     def gate_of(self, test) -> Optional[tuple]:
         """flags & CompressedFlags.X(.value) -> ('X',)"""
+        if isinstance(test, ast.Call) and isinstance(test.func, ast.Name) and test.func.id in self.closures:
+            params, body = self.closures[test.func.id]
+            import copy as _copy
+            mapping = dict(zip(params, test.args))
+
+            class _Sub(ast.NodeTransformer):
+                def visit_Name(self, node):
+                    if node.id in mapping:
+                        return _copy.deepcopy(mapping[node.id])
+                    return node
+            return self.gate_of(_Sub().visit(_copy.deepcopy(body)))
         if isinstance(test, ast.BinOp) and isinstance(test.op, ast.BitAnd):
             for a, b in ((test.left, test.right), (test.right, test.left)):
                 pa = ap(a)
@@ -355,6 +375,13 @@ class FastInterp:
                     raise AnalysisError("C13: fast reader no longer returns a dict literal")
             elif isinstance(st, ast.Expr):
                 continue
+            elif isinstance(st, ast.FunctionDef):
+                # local predicate helper, e.g. has_section(flag): return flags & flag.value
+                body = [x for x in st.body if not (isinstance(x, ast.Expr) and isinstance(x.value, ast.Constant))]
+                if len(body) == 1 and isinstance(body[0], ast.Return) and body[0].value is not None:
+                    self.closures[st.name] = ([a.arg for a in st.args.args], body[0].value)
+                else:
+                    raise AnalysisError(f"C13: unsupported local function {st.name} in fast reader")
             else:
                 raise AnalysisError(f"C13: unsupported statement {type(st).__name__} in fast reader (line {st.lineno})")
 
